@@ -98,7 +98,7 @@ def map_rule(ctx, res, rule="C18.map", directions=("from_serde_json", "into_serd
         rec = [c for bi, c, t in static.calls(P, inst) if c is not None]
         closures = [P.inst[i] for i in P.reachable([inst["id"]]) if P.inst[i]["path"].startswith(inst["path"] + "::{closure")]
         uses_self = any(fr in [inst["id"]] for fr in P.fn_refs(inst["id"])) or any(inst["id"] in P.edges()[c["id"]] for c in closures)
-        res.ob(uses_self, rule, "%s/%s/recursion" % (rule, direction), "%s does not convert nested values recursively" % direction, sample={"direction": direction, "recursive": True})
+        # (that nested values are converted recursively is decided by the container arms above: every element must come out as conv(element))
         if direction == "from_serde_json":
             reach = P.reachable([inst["id"]])
             pe = any(P.inst[i]["path"] == "json_syntax::Object::push_entry" for i in reach)
@@ -113,7 +113,12 @@ def map_rule(ctx, res, rule="C18.map", directions=("from_serde_json", "into_serd
         try:
             f = shape.find_inst(P, rx)
             cs = [c["path"] for bi, c, t in static.calls(P, f) if c is not None]
-            res.ob(cs == [target], rule, rule + "/from-impl/" + target.rsplit("::", 1)[-1], "the From impl does not simply delegate to %s (%r)" % (target, cs))
+            # the method and the From impl are one conversion: one of them holds the body (decided above, per variant, under
+            # either name) and the other hands its argument to it
+            meth = [i_ for i_ in P.inst if i_["path"] == target and i_.get("has_mir")]
+            cs_m = [c["id"] for bi, c, t in static.calls(P, meth[0]) if c is not None] if len(meth) == 1 else None
+            res.ob(cs == [target] or cs_m == [f["id"]], rule, rule + "/from-impl/" + target.rsplit("::", 1)[-1],
+                   "neither does the From impl simply delegate to %s (it calls %r) nor the method to the From impl" % (target, cs[:4]))
         except Undecided as e:
             res.violation(rule, rule + "/from-impl/missing", str(e))
 
@@ -133,7 +138,18 @@ def container_arm(P, res, rule, direction, fn_rx, inst, src, dst, dstn, vi, vn, 
     def tagof(v):
         return v.tag if isinstance(v, Top) else repr(v)
 
-    sh.cut(fn_rx, "conv", ret=lambda it, st, c, a: Top(shape.ret_ty(it, c), ("conv", tagof(a[0]))))
+    # the recursive conversion - under either of its names (the inherent method or the From impl, whichever holds the body) - is
+    # a cut point for the scripted elements; applied to the value under conversion itself it is the (delegating) root and runs
+    conv_rx = re.compile(fn_rx[:-1] + r"$|<impl std::convert::From<(serde_json|json_syntax)::Value> for (json_syntax|serde_json)::Value>::from$|^<(serde_json|json_syntax)::Value as std::convert::From<(serde_json|json_syntax)::Value>>::from$")
+    root_val = []
+
+    def conv(it, st, inst_, args, call):
+        if root_val and args and args[0] == root_val[0]:
+            return NotImplemented
+        st.emit("conv", tuple(args), (), inst_["name"])
+        return Top(shape.ret_ty(it, call), ("conv", tagof(args[0])))
+
+    sh.it.summaries.insert(0, (lambda i_: bool(conv_rx.search(i_["name"])), conv))
     for rx in (r"^<smallstr::string::SmallString<.*> as std::convert::From<std::string::String>>::from$", r"^smallstr::string::SmallString::<.*>::into_string$"):
         sh.cut(rx, "kconv", ret=lambda it, st, c, a: Top(shape.ret_ty(it, c), ("kconv", tagof(a[0]))))
 
@@ -202,7 +218,7 @@ def container_arm(P, res, rule, direction, fn_rx, inst, src, dst, dstn, vi, vn, 
             def apply_all(it_, st_, items, acc):
                 if not items:
                     return then(it_, st_, acc)
-                if isinstance(f, FnItem) and re.search(fn_rx, P.inst[fid]["name"]):
+                if isinstance(f, FnItem) and conv_rx.search(P.inst[fid]["name"]):
                     # the recursive conversion passed as a function item: the same cut point as a direct call
                     st_.emit("conv", (items[0],), (), P.inst[fid]["name"])
                     return apply_all(it_, st_, items[1:], acc + [Top(P.inst[fid]["locals"][0], ("conv", tagof(items[0])))])
@@ -244,7 +260,8 @@ def container_arm(P, res, rule, direction, fn_rx, inst, src, dst, dstn, vi, vn, 
 
     sh.cut(r"^serde_json::Map::<.*>::insert$", "map_insert_call", ret=map_insert)
     try:
-        outs = sh.run(inst, [Agg(src["id"], vi, [payload])])
+        root_val.append(Agg(src["id"], vi, [payload]))
+        outs = sh.run(inst, [root_val[0]])
         if len(outs) != 1 or outs[0].outcome[0] != "return":
             raise Undecided("%d paths (%s): the mapping depends on more than the variant" % (len(outs), [o.outcome[0] for o in outs][:4]))
         o = outs[0]
